@@ -32,6 +32,7 @@ REQUIRED_THEOREMS = [
     "runSpec_whole_range_exact", "runSpec_observation_independent", "runSpec_any_range", "empty_range",
     "c07_statement_on_heap", "c07_any_range_on_heap",
     "autonomous_state_any_arithmetic", "autonomous_bit_identical_of_same_steps", "float_autonomous_state",
+    "float_initial_state_untouched",
 ]
 MIN_LEGS = {"heap": 100}
 RULE = ("groups of runs sharing (dt, t_start, t_end, equation, solver, backend) and differing in the tracker "
